@@ -1183,6 +1183,9 @@ func (c *control) dirP(colon, at bool, params []any) {
 	}
 	arg := c.nextArg()
 	n, ok := arg.(slip.Fixnum)
+	if o, isOctet := arg.(slip.Octet); isOctet {
+		n, ok = slip.Fixnum(o), true
+	}
 	switch {
 	case ok && n == 1:
 		if at {
@@ -1216,6 +1219,8 @@ func (c *control) dirR(colon, at bool, params []any) {
 	arg := c.nextArg()
 	switch ta := arg.(type) {
 	case slip.Fixnum:
+		digits = strconv.AppendInt(nil, int64(ta), 10)
+	case slip.Octet:
 		digits = strconv.AppendInt(nil, int64(ta), 10)
 	case *slip.Bignum:
 		digits = (*big.Int)(ta).Append(nil, 10)
